@@ -54,7 +54,7 @@ func genC06(rng *rand.Rand) c06Case {
 	n := 3 + rng.IntN(3)
 	for i := 0; i < n; i++ {
 		s := c06Sess{Transport: c.Transports[rng.IntN(len(c.Transports))]}
-		s.EIO = []string{"4", "4", "3", ""}[rng.IntN(4)]
+		s.EIO = []string{"4", "4", "3", "", "4,3", "3,4"}[rng.IntN(6)]
 		if s.Transport == "webtransport" {
 			s.EIO = "4"
 		}
@@ -112,8 +112,50 @@ func runC06(c c06Case, r *rep.Report) (key, msg string, stats map[string]int64) 
 				if s.EIO == "" {
 					cfg.OmitEIO = true
 				}
-				cl, err := w.Connect(cfg)
-				rig.Wait()
+				var cl *rig.Client
+				var err error
+				if strings.Contains(s.EIO, ",") {
+					// the parameter is given twice with different values: the statement does not say
+					// which one counts, but the session must be consistently ONE revision (admission,
+					// Protocol(), payload format).  Raw handshake, decoded under both formats.
+					vals := strings.Split(s.EIO, ",")
+					res := w.Do(rig.ReqSpec{Method: "GET", Target: "/engine.io/?EIO=" + vals[0] + "&transport=polling&EIO=" + vals[1]})
+					rig.Wait()
+					stats["handshakes_with_repeated_eio"]++
+					ids := w.SocketIDs()
+					if res.Status != 200 {
+						if w.Eng.ClientsCount() != before {
+							key, msg = "c06-rejected-handshake-created-session", fmt.Sprintf("EIO=%s&EIO=%s answered %d but created a session", vals[0], vals[1], res.Status)
+							return
+						}
+						continue
+					}
+					if w.Eng.ClientsCount() != before+1 || len(ids) == 0 {
+						key, msg = "c06-registry-entries", fmt.Sprintf("EIO=%s&EIO=%s admitted: count %d -> %d", vals[0], vals[1], before, w.Eng.ClientsCount())
+						return
+					}
+					sock := w.SocketByID(ids[len(ids)-1])
+					wire := 0
+					if ps, e := refcodec.DecodePayload("v4", res.Body); e == nil && len(ps) > 0 && ps[0].Type == refcodec.Open {
+						wire = 4
+					} else if ps, e := refcodec.DecodePayload("v3s", res.Body); e == nil && len(ps) > 0 && ps[0].Type == refcodec.Open {
+						wire = 3
+					}
+					if wire == 0 || wire != sock.Protocol() {
+						key, msg = "c06-repeated-eio-inconsistent", fmt.Sprintf("EIO=%s&EIO=%s: Protocol() = %d but the handshake response %.40q is in revision-%d format", vals[0], vals[1], sock.Protocol(), res.Body, wire)
+						return
+					}
+					if wire == 3 && !c.AllowEIO3 {
+						key, msg = "c06-eio3-admitted-although-disallowed", fmt.Sprintf("EIO=%s&EIO=%s admitted as revision 3 with allowEIO3=false", vals[0], vals[1])
+						return
+					}
+					sock.Close(true)
+					rig.Wait()
+					continue
+				} else {
+					cl, err = w.Connect(cfg)
+					rig.Wait()
+				}
 				admitted := rev == 4 || c.AllowEIO3
 				stats["handshakes"]++
 				if !admitted {
